@@ -59,6 +59,7 @@ struct Ctx {
   bool discard = false;        // case excluded (e.g. matches a known finding); counted separately
   std::string discard_why;
   std::string desc;            // decoded case, one line
+  std::string digest;          // what a user of the library can observe of this case (compared across build configurations, C20)
   std::vector<std::string> labels;
   std::vector<std::string> trace;
   // --- run-wide settings
@@ -70,7 +71,7 @@ struct Ctx {
 
   void reset_case() {
     failed = false; fail_sig.clear(); fail_msg.clear(); fail_prop.clear();
-    nontrivial = false; discard = false; discard_why.clear(); desc.clear();
+    nontrivial = false; discard = false; discard_why.clear(); desc.clear(); digest.clear();
     labels.clear(); trace.clear();
   }
   // Record a violation.  Never throws (may be called from noexcept library
